@@ -197,6 +197,11 @@ func (reader *H264Reader) NextNAL() (*NAL, error) {
 	reader.nalBuffer = nil
 	nal.parseHeader()
 
+	// The unit buffered when the stream ended has not been filtered yet.
+	if !reader.includeSEI && nal.UnitType == NalUnitTypeSEI {
+		return nil, io.EOF
+	}
+
 	return nal, nil
 }
 
